@@ -1,7 +1,163 @@
+/-
+  C04 — write batch wire format: iterate ∘ encode, append, truncation, count check.
+-/
 import LcdbModel.Props.Consts
 import LcdbModel.Props.CodingProps
 import LcdbModel.Model.WriteBatch
+import LcdbModel.Lemmas.WriteBatch
 namespace Lcdb.C04
 open Lcdb
+
+/-! ### A1  iterate ∘ encode -/
+
+theorem iterate_encode (seq : Nat) (ops : List BOp) (_hseq : seq < 2 ^ 64)
+    (hn : ops.length < 2 ^ 32) (hwf : OpsWF ops) :
+    batchIterate (encodeBatch seq ops) = { applied := ops, ok := true } := by
+  have hlen := encodeBatch_length seq ops
+  have hge := encodeOps_length_ge ops
+  rw [batchIterate_eq _ (by omega), encodeBatch_drop12,
+    iterateGo_encodeOps_nil ops hwf _ (by omega), batchCount_encodeBatch, Nat.mod_eq_of_lt hn]
+  simp
+
+theorem seq_encode (seq : Nat) (ops : List BOp) (hseq : seq < 2 ^ 64) :
+    batchSeq (encodeBatch seq ops) = seq := by
+  rw [batchSeq_encodeBatch, Nat.mod_eq_of_lt hseq]
+
+theorem count_encode (seq : Nat) (ops : List BOp) (hn : ops.length < 2 ^ 32) :
+    batchCount (encodeBatch seq ops) = ops.length := by
+  rw [batchCount_encodeBatch, Nat.mod_eq_of_lt hn]
+
+example :
+    batchIterate (encodeBatch 7 [.put [1] [2, 3], .del [1], .put [] []])
+      = { applied := [.put [1] [2, 3], .del [1], .put [] []], ok := true } :=
+  iterate_encode 7 _ (by decide) (by decide) (by
+    intro op h
+    simp only [List.mem_cons, List.not_mem_nil, or_false] at h
+    rcases h with rfl | rfl | rfl <;> simp [OpWF])
+
+/-! ### A2  append -/
+
+/-- ldb_batch_append on two encoded batches is the encoding of the concatenated operation list
+    under the destination's sequence (no well-formedness of the operations is needed) -/
+theorem append_ops (s1 s2 : Nat) (a b : List BOp) (hn : a.length + b.length < 2 ^ 32) :
+    batchAppend (encodeBatch s1 a) (encodeBatch s2 b) = encodeBatch s1 (a ++ b) := by
+  unfold batchAppend
+  rw [encodeBatch_take8, encodeBatch_drop12, encodeBatch_drop12, batchCount_encodeBatch,
+    batchCount_encodeBatch, Nat.mod_eq_of_lt (show a.length < 2 ^ 32 by omega),
+    Nat.mod_eq_of_lt (show b.length < 2 ^ 32 by omega), Nat.mod_eq_of_lt hn]
+  simp only [encodeBatch, encodeOps_append, List.length_append, List.append_assoc]
+
+/-- iterating the appended batch applies `a ++ b` in order, with count `|a|+|b|` and sequence `s1` -/
+theorem iterate_append (s1 s2 : Nat) (a b : List BOp) (hs1 : s1 < 2 ^ 64)
+    (hn : a.length + b.length < 2 ^ 32) (ha : OpsWF a) (hb : OpsWF b) :
+    batchIterate (batchAppend (encodeBatch s1 a) (encodeBatch s2 b))
+        = { applied := a ++ b, ok := true }
+      ∧ batchCount (batchAppend (encodeBatch s1 a) (encodeBatch s2 b)) = a.length + b.length
+      ∧ batchSeq (batchAppend (encodeBatch s1 a) (encodeBatch s2 b)) = s1 := by
+  have hn' : (a ++ b).length < 2 ^ 32 := by rw [List.length_append]; exact hn
+  rw [append_ops s1 s2 a b hn]
+  exact ⟨iterate_encode s1 (a ++ b) hs1 hn' (ha.append hb),
+    by rw [count_encode _ _ hn', List.length_append], seq_encode _ _ hs1⟩
+
+example : batchAppend (encodeBatch 5 [.put [1] [2]]) (encodeBatch 9 [.del [3]])
+    = encodeBatch 5 [.put [1] [2], .del [3]] :=
+  append_ops 5 9 _ _ (by decide)
+
+/-! ### A3  truncated batches -/
+
+theorem short_rejected (rep : Bytes) (h : rep.length < 12) : (batchIterate rep).ok = false := by
+  unfold batchIterate
+  rw [if_pos (by simpa [batchHeaderSize] using h)]
+
+/-- common core of `prefix_rejected` / `prefix_applies_prefix` -/
+theorem prefix_core (seq : Nat) (ops : List BOp) (hn : ops.length < 2 ^ 32) (hwf : OpsWF ops)
+    (n : Nat) (h1 : 12 ≤ n) (h2 : n < (encodeBatch seq ops).length) :
+    (batchIterate ((encodeBatch seq ops).take n)).ok = false
+      ∧ (batchIterate ((encodeBatch seq ops).take n)).applied <+: ops := by
+  have hlen := encodeBatch_length seq ops
+  have htl : ((encodeBatch seq ops).take n).length = n := by
+    rw [List.length_take]; omega
+  rw [batchIterate_eq _ (by omega), htl, List.drop_take, encodeBatch_drop12,
+    batchCount_take _ _ h1, count_encode _ _ hn]
+  obtain ⟨ops', e1, e2, e3⟩ := iterateGo_take_encodeOps ops hwf (n - 12) (n + 1) [] 0 (by omega)
+  refine ⟨?_, by simpa [e1] using e2⟩
+  rcases e3 with e3 | e3
+  · simp [e3]
+  · have : ((iterateGo (n + 1) (List.take (n - 12) (encodeOps ops)) [] 0).2.1 == ops.length)
+        = false := by
+      rw [beq_eq_false_iff_ne]; omega
+    simp [this]
+
+/-- every proper prefix of an encoded batch that still has the 12-byte header is rejected
+    (by a short slice, or — when cut on a record boundary — by the count check) -/
+theorem prefix_rejected (seq : Nat) (ops : List BOp) (hn : ops.length < 2 ^ 32) (hwf : OpsWF ops)
+    (n : Nat) (h1 : 12 ≤ n) (h2 : n < (encodeBatch seq ops).length) :
+    (batchIterate ((encodeBatch seq ops).take n)).ok = false :=
+  (prefix_core seq ops hn hwf n h1 h2).1
+
+/-- … and the handler calls made before the failure are a prefix of the batch's operations -/
+theorem prefix_applies_prefix (seq : Nat) (ops : List BOp) (hn : ops.length < 2 ^ 32)
+    (hwf : OpsWF ops) (n : Nat) (h1 : 12 ≤ n) (h2 : n < (encodeBatch seq ops).length) :
+    (batchIterate ((encodeBatch seq ops).take n)).applied <+: ops :=
+  (prefix_core seq ops hn hwf n h1 h2).2
+
+/-- all proper prefixes, with or without a full header -/
+theorem any_prefix_rejected (seq : Nat) (ops : List BOp) (hn : ops.length < 2 ^ 32)
+    (hwf : OpsWF ops) (n : Nat) (h2 : n < (encodeBatch seq ops).length) :
+    (batchIterate ((encodeBatch seq ops).take n)).ok = false := by
+  by_cases h1 : 12 ≤ n
+  · exact prefix_rejected seq ops hn hwf n h1 h2
+  · exact short_rejected _ (by rw [List.length_take]; omega)
+
+/-- the bytes of a two-record batch (`varintEnc` is defined by well-founded recursion, so concrete
+    instances are evaluated with `simp` rather than `decide`) -/
+theorem example_bytes : encodeBatch 7 [.put [1] [2], .del [3]]
+    = [7, 0, 0, 0, 0, 0, 0, 0,  2, 0, 0, 0,  1, 1, 1, 1, 2,  0, 1, 3] := by
+  simp [encodeBatch, encodeOps, encodeOp, sliceEnc, varintEnc_lt, fixedEnc, typeValue, typeDeletion]
+
+/-- cut on a record boundary (after the first of two records): the count check rejects -/
+example : batchIterate ((encodeBatch 7 [.put [1] [2], .del [3]]).take 17)
+    = { applied := [.put [1] [2]], ok := false } := by rw [example_bytes]; decide
+
+/-- cut inside a record: a slice read fails -/
+example : batchIterate ((encodeBatch 7 [.put [1] [2], .del [3]]).take 19)
+    = { applied := [.put [1] [2]], ok := false } := by rw [example_bytes]; decide
+
+example : (batchIterate ((encodeBatch 7 [.put [1] [2], .del [3]]).take 17)).ok = false :=
+  prefix_rejected 7 _ (by decide) (by
+    intro op h
+    simp only [List.mem_cons, List.not_mem_nil, or_false] at h
+    rcases h with rfl | rfl <;> simp [OpWF]) 17 (by decide) (by rw [example_bytes]; decide)
+
+/-! ### A4  what acceptance implies -/
+
+theorem iterate_total (rep : Bytes) : ∃ r, batchIterate rep = r := ⟨_, rfl⟩
+
+/-- accepted ⇒ the number of handler calls equals the header count -/
+theorem iterate_count (rep : Bytes) (h : (batchIterate rep).ok = true) :
+    (batchIterate rep).applied.length = batchCount rep := by
+  by_cases hl : rep.length < 12
+  · rw [short_rejected rep hl] at h; cases h
+  · rw [batchIterate_eq rep (by omega)] at h ⊢
+    simp only [Bool.and_eq_true, beq_iff_eq] at h
+    have := iterateGo_count _ _ _ _ h.1
+    simp only [List.length_nil] at this
+    show (iterateGo (rep.length + 1) (rep.drop 12) [] 0).1.length = batchCount rep
+    omega
+
+/-- acceptance does NOT imply the bytes are the canonical encoding of the applied operations:
+    a delete whose key length is the over-long varint `80 00` is accepted -/
+theorem iterate_sound_false :
+    ¬ ∀ rep : Bytes, (batchIterate rep).ok = true →
+        rep.drop 12 = encodeOps (batchIterate rep).applied := by
+  intro h
+  have hb : batchIterate [0, 0, 0, 0, 0, 0, 0, 0, 1, 0, 0, 0, 0x00, 0x80, 0x00]
+      = { applied := [.del []], ok := true } := by decide
+  have he : encodeOps [.del []] = [0, 0] := by
+    simp [encodeOps, encodeOp, sliceEnc, varintEnc_lt, typeDeletion]
+  have := h [0, 0, 0, 0, 0, 0, 0, 0, 1, 0, 0, 0, 0x00, 0x80, 0x00] (by rw [hb])
+  rw [hb, he] at this
+  revert this
+  decide
 
 end Lcdb.C04
